@@ -4,7 +4,7 @@
    rank of the first score-minimal p-mer of the k-mer x: a function of x alone.  Constants msp_* are pinned from
    the source (currently msp_assert_shift = 32, msp_len_bits = 16, msp_bucket_bits = 32). *)
 From Coq Require Import NArith List Bool Arith.
-From DBG Require Import Gen.SourceConsts Spec.Dna Spec.ScanSpec Algo.Scan Algo.Msp Check.ScanCheck Proofs.ScanProofs Proofs.MspProofs.
+From DBG Require Import Gen.SourceConsts Spec.Dna Spec.ScanSpec Algo.Scan Algo.Msp Check.ScanCheck Proofs.ScanProofs Proofs.MspProofs Proofs.ScanCheckProofs.
 Import ListNotations.
 Open Scope nat_scope.
 
@@ -41,6 +41,13 @@ Theorem C08_bucket_rc : forall p perm rcmode, perm_ok p perm -> forall x,
   shard_of (msp_score p perm rcmode) p (rc x) = shard_of (msp_score p perm rcmode) p x.
 Proof. exact bucket_rc. Qed.
 
+(* The boolean checker run by the correspondence driver on the IMPLEMENTATION's output over a whole read set is
+   sound: acceptance implies that every read's pieces are exact substrings tiling the read with the true
+   flanking extensions, and that all occurrences of a k-mer (of either orientation in rc mode) anywhere in the
+   set carry one bucket id ([msp_out_ok], Spec/ScanSpec.v). *)
+Theorem C08_check_msp_sound : forall k rcmode l, check_msp k rcmode l = true -> msp_out_ok k rcmode l.
+Proof. exact check_msp_sound. Qed.
+
 (* reads shorter than k give no pieces; a container that cannot hold 2k-p bases is refused *)
 Example C08_short_read : msp_sequence 64 [0;1;2]%N 5 2 None true = Some [].
 Proof. reflexivity. Qed.
@@ -60,3 +67,4 @@ Proof. vm_compute. reflexivity. Qed.
 Print Assumptions C08_piece_exact.
 Print Assumptions C08_bucket_pure.
 Print Assumptions C08_bucket_rc.
+Print Assumptions C08_check_msp_sound.
